@@ -156,9 +156,9 @@ SignedImpliesWasValid ==
 \* stamps on an unsigned envelope never validate
 StampsNeedSignature == (head.stamps # <<>> /\ ~FactS(sigs)) => ValidateOut(doc, head, sigs) = "validation"
 \* verification succeeds exactly when signatures exist, are by an offered key, and H holds
-VerifySound == \A K \in {<<>>} \cup {<<k>> : k \in Keys} :
+VerifySound == \A K \in {<<>>} \cup {<<k>> : k \in Keys} \cup {<<k, j>> : k, j \in Keys \cup {"other"}} :
                   VerifyOut(head, sigs, K) = "ok" =>
-                      FactS(sigs) /\ FactH(head, sigs) /\ (K # <<>> => \A i \in DOMAIN sigs : sigs[i].key = K[1])
+                      FactS(sigs) /\ FactH(head, sigs) /\ (K # <<>> => \A i \in DOMAIN sigs : \E j \in DOMAIN K : sigs[i].key = K[j])
 \* no outside entry point accepts what the library rejects
 ViaSound == \A k \in Keys : VerifyViaOut(doc, head, sigs, <<k>>) = "ok" =>
                 VerifyOut(head, sigs, <<k>>) = "ok" /\ ValidateOut(doc, head, sigs) = "ok"
